@@ -187,7 +187,7 @@ class Interp:
         c = self._relevant_cache
         if f in c:
             return c[f]
-        clo = self.prog.closure([f], may=False)
+        clo = self.prog.closure([f], may=True)
         r = any(self._directly_relevant(g) for g in clo)
         c[f] = r
         return r
